@@ -189,48 +189,48 @@ type Read struct {
 }
 
 type Stage struct {
-	ID      int
-	Kind    string // "go-lit", "go-call", "iface", "builder-recv"
-	Fn      *types.Func
-	FnName  string
-	Pos     token.Pos
-	Parent  *Stage
-	Frame   *Frame
-	Ins     []*StageIn
-	Outs    []*Stream
-	Closures []*Closure
-	Sends   []*SendInfo
-	Owner   *Frame  // frame that owns the construct (nearest non-wrapper)
-	Construct string // e.g. "helper.Subtract#1"
-	DrainBeforeClose bool // drains inputs before closing its outputs
+	ID                int
+	Kind              string // "go-lit", "go-call", "iface", "builder-recv"
+	Fn                *types.Func
+	FnName            string
+	Pos               token.Pos
+	Parent            *Stage
+	Frame             *Frame
+	Ins               []*StageIn
+	Outs              []*Stream
+	Closures          []*Closure
+	Sends             []*SendInfo
+	Owner             *Frame // frame that owns the construct (nearest non-wrapper)
+	Construct         string // e.g. "helper.Subtract#1"
+	DrainBeforeClose  bool   // drains inputs before closing its outputs
 	HasDrainAfterLoop bool
-	Exits   []*ExitPath
-	Notes   []string
+	Exits             []*ExitPath
+	Notes             []string
 }
 
 type StageIn struct {
-	S          *Stream
-	LeadAt     *lin.Expr // lead(S) + elements of S consumed before the steady-state loop
-	Checked    bool
-	Consumed   *lin.Expr
-	Drained    bool
-	InLoop     bool
-	Order      int
+	S        *Stream
+	LeadAt   *lin.Expr // lead(S) + elements of S consumed before the steady-state loop
+	Checked  bool
+	Consumed *lin.Expr
+	Drained  bool
+	InLoop   bool
+	Order    int
 }
 
 type SendInfo struct {
-	Out   *Stream
-	Expr  ast.Expr
-	Frame *Frame
-	Cond  string // "", "pred", "ringfull", "branch"
+	Out    *Stream
+	Expr   ast.Expr
+	Frame  *Frame
+	Cond   string // "", "pred", "ringfull", "branch"
 	InLoop bool
-	Pos   token.Pos
+	Pos    token.Pos
 }
 
 type ExitPath struct {
-	Closed  *Stream   // the input whose closing triggers this exit (nil: bound reached / normal)
-	Drains  []*Stream // inputs explicitly drained on this path
-	Kind    string
+	Closed *Stream   // the input whose closing triggers this exit (nil: bound reached / normal)
+	Drains []*Stream // inputs explicitly drained on this path
+	Kind   string
 }
 
 // Join is a stage reading more than one stream in its steady-state loop.
@@ -241,21 +241,21 @@ type Join struct {
 
 // Frame is an activation of a function body (inlined).
 type Frame struct {
-	Fn      *types.Func
-	FnName  string
-	Info    *types.Info
-	PkgPath string
-	Env     *Env
-	Recv    Value
-	Parent  *Frame
-	Call    *ast.CallExpr // call site in the parent
-	Depth   int
-	Stage   *Stage // non-nil when executing inside a goroutine body
-	Defers  []func()
-	Ret     Value
-	Wrapper bool
-	callOrd map[string]int
-	Decl    *ast.FuncDecl
+	Fn       *types.Func
+	FnName   string
+	Info     *types.Info
+	PkgPath  string
+	Env      *Env
+	Recv     Value
+	Parent   *Frame
+	Call     *ast.CallExpr // call site in the parent
+	Depth    int
+	Stage    *Stage // non-nil when executing inside a goroutine body
+	Defers   []func()
+	Ret      Value
+	Wrapper  bool
+	callOrd  map[string]int
+	Decl     *ast.FuncDecl
 	Contract bool // outputs were overridden by a contract
 }
 
@@ -267,10 +267,10 @@ type Report struct {
 }
 
 type Column struct {
-	Name   string
-	Kind   string // "numeric", "annotation"
-	S      *Stream
-	Pos    token.Pos
+	Name string
+	Kind string // "numeric", "annotation"
+	S    *Stream
+	Pos  token.Pos
 }
 
 // ---------------------------------------------------------------------------
